@@ -1,5 +1,7 @@
 package persistence
 
+import "errors"
+
 func NewState(name Name, configurator ...StateConfigurator) *State {
 	state := &State{
 		config: newStateConfiguration(),
@@ -47,6 +49,11 @@ func (s *State) Load() (snapshot Snapshot, events []Event, err error) {
 		// 运行时状态从已存储的记录继续，否则以相同名称重新创建的 Actor 在下一次持久化时会丢失之前的历史
 		s.snapshot = snapshot
 		s.events = append([]Event(nil), events...)
+	} else if errors.Is(err, ErrorPersistenceNotHasRecord) {
+		// nothing is stored under this name: the runtime state starts from nothing as well. A restarted actor keeps its
+		// State; what a failed Persist left in it must not be written out later as if the new instance had recorded it
+		s.snapshot = nil
+		s.events = nil
 	}
 	return
 }
